@@ -135,7 +135,17 @@ class Eval:
       env[t.id] = v
     elif isinstance(t, (ast.Tuple, ast.List)):
       if not isinstance(v, (list, tuple)) or (isinstance(v, tuple) and v and isinstance(
-          v[0], str)) or len(v) != len(t.elts):
+          v[0], str)):
+        raise Unsupported('unpacking %r' % (v,))
+      stars = [i for i, tt in enumerate(t.elts) if isinstance(tt, ast.Starred)]
+      if len(stars) == 1 and len(v) >= len(t.elts) - 1:
+        i = stars[0]
+        after = len(t.elts) - i - 1
+        vals = list(v[:i]) + [list(v[i:len(v) - after])] + list(v[len(v) - after:])
+        for tt, vv in zip(t.elts, vals):
+          self.assign(tt.value if isinstance(tt, ast.Starred) else tt, vv, env)
+        return
+      if stars or len(v) != len(t.elts):
         raise Unsupported('unpacking %r' % (v,))
       for tt, vv in zip(t.elts, v):
         self.assign(tt, vv, env)
@@ -237,6 +247,24 @@ class Eval:
         return ('const', l[1] - r[1])
     if isinstance(e, ast.Call):
       return self.call(e, env)
+    if isinstance(e, (ast.ListComp, ast.GeneratorExp)):
+      out = []
+
+      def gen(i, env_):
+        if i == len(e.generators):
+          out.append(self.ev(e.elt, env_))
+          return
+        g = e.generators[i]
+        it = self.ev(g.iter, env_)
+        if not isinstance(it, list):
+          raise Unsupported('comprehension over %s' % core.norm(g.iter))
+        for x in list(it):
+          e2 = dict(env_)
+          self.assign(g.target, x, e2)
+          if all(self.truth(self.ev(c, e2)) for c in g.ifs):
+            gen(i + 1, e2)
+      gen(0, dict(env))
+      return out
     raise Unsupported('expression %s' % core.norm(e)[:60])
 
   def call(self, e, env):
